@@ -1,13 +1,23 @@
 /-
   C02 — round trip for every consistent printer/parser pairing.
 
-  Full statement (the structural round-trip theorem is being built in LexprModel/Proofs/, see C01):
-    theorem C02_roundtrip (P R) (hc : Compatible P R) (v) (h : PlainFor P R v) (hn : nesting v < 127) :
-      fromTrait ⟨R, ..⟩ (initSt .slice (Print.text P ryu v)) = .ok (fold P R (readBack v)) _
+  Fully proved for values without float leaves (LexprModel/Proofs/DialectRT.lean and
+  DialectStructRT.lean, imported here):
+    theorem C02_roundtrip : Compatible p cfg.opts → AllPlainFor p cfg v → Spec.nesting v < 127 →
+      ∃ s', fromTrait cfg (initSt .slice (Print.text p ryu v)) = .ok (fold p cfg.opts v) s'
+            ∧ s'.rd.rest = [] ∧ s'.depth = 128
+  for every one of the 576 printer and 1536 parser option sets: the text printed under `p` is read
+  back under any compatible parser option set as the documented folding of the value, nothing else.
+  Token level (`dialectRT_nil/_bool/_keyword/_char/_string/_bytes/_symbol/_posint/_negint/_atom`) for
+  all three sources; structure (`dialectRT_structure`: lists, dotted lists, both vector spellings,
+  exact depth measure `nestingP`) on the slice source.  Side conditions (`symbolPlainFor`,
+  `keywordPlainFor`) are decidable and each is shown necessary by a witness in those files.
+  Not covered by the theorem: float leaves (ryu is a parameter), digit-initial and `#`-initial names.
   Proved here: facts about `Compatible`, `fold` and `pof` over the whole (finite) option space and
   for all values.
 -/
 import LexprModel.Spec.Dialect
+import LexprModel.Proofs.DialectStructRT
 namespace Lexpr
 namespace Spec
 
